@@ -104,14 +104,7 @@ func c16eval(cas c16case) *Violation {
 		rec.reset()
 	}
 	l := slog.New("lg").SetWriter(w).SetErrorWriter(w).SetLevel(slog.AlwaysLevel)
-	switch cas.Format {
-	case "json":
-		l.SetJSONMode(true)
-	case "logfmt":
-		l.SetColorMode(false)
-	default:
-		l.SetColorMode(true)
-	}
+	c16format(l, cas.Format)
 	utc := !cas.LocalTime
 	switch cas.UTCMode {
 	case "true":
@@ -120,6 +113,39 @@ func c16eval(cas c16case) *Violation {
 	case "default-arg":
 		l.SetUTCMode()
 		utc = true
+	case "false-then-default-arg":
+		l.SetUTCMode(false)
+		l.SetUTCMode()
+		utc = true
+	case "true-then-false":
+		l.SetUTCMode(true)
+		l.SetUTCMode(false)
+		utc = false
+	case "false-then-true":
+		l.SetUTCMode(false).SetUTCMode(true)
+		utc = true
+	case "default-arg-then-false":
+		l.SetUTCMode()
+		l.SetUTCMode(false)
+		utc = false
+	case "option-false-then-option-default":
+		l = slog.New("lg", slog.WithUTCMode(false), slog.WithUTCMode()).SetWriter(w).SetErrorWriter(w).SetLevel(slog.AlwaysLevel)
+		c16format(l, cas.Format)
+		utc = true
+	case "variadic-false-true":
+		l.SetUTCMode(false, true) // the last argument wins
+		utc = true
+	case "variadic-true-false":
+		l.SetUTCMode(true, false)
+		utc = false
+	case "option-true":
+		l = slog.New("lg", slog.WithUTCMode(true)).SetWriter(w).SetErrorWriter(w).SetLevel(slog.AlwaysLevel)
+		c16format(l, cas.Format)
+		utc = true
+	case "option-false":
+		l = slog.New("lg", slog.WithUTCMode(false)).SetWriter(w).SetErrorWriter(w).SetLevel(slog.AlwaysLevel)
+		c16format(l, cas.Format)
+		utc = false
 	case "false":
 		l.SetUTCMode(false)
 		utc = false
@@ -228,8 +254,12 @@ func c16cases(thorough bool, emit func(c16case)) {
 			}
 			for flags := 0; flags < 8; flags++ {
 				for _, lt := range []bool{false, true} {
-					for _, um := range []string{"unset", "false", "true", "default-arg"} {
+					for ui, um := range []string{"unset", "false", "true", "default-arg", "false-then-default-arg", "true-then-false", "false-then-true", "default-arg-then-false",
+						"option-false-then-option-default", "option-true", "option-false", "variadic-false-true", "variadic-true-false"} {
 						for li, lay := range layouts {
+							if ui >= 4 && !(li <= 1 && (flags == 0 || flags == 7)) && !(thorough && li <= 3) {
+								continue // sequences of mode-setting calls: with the flag-driven and default layouts (thorough: two explicit layouts more)
+							}
 							if lay != "" && flags != 0 && flags != 7 && !thorough {
 								continue // an explicit layout makes the flags irrelevant; two flag values suffice in quick
 							}
@@ -291,4 +321,15 @@ func init() {
 		}
 		return c16eval(cas)
 	}})
+}
+
+func c16format(l slog.Logger, f string) {
+	switch f {
+	case "json":
+		l.SetJSONMode(true)
+	case "logfmt":
+		l.SetColorMode(false)
+	default:
+		l.SetColorMode(true)
+	}
 }
